@@ -333,6 +333,7 @@ func buildProperties() []Property {
 				{"R-SHIFT-GUARD", 2, ruleShiftGuard},
 				{"R-IFACE-EQ", 10, ruleIfaceEq},
 				{"R-ENUM-TOTAL", 15, ruleEnumTotal},
+				{"R-ZERO-VM", 3, ruleZeroVM},
 				{"R-PANIC-BARRIER", 4, rulePanicBarrier},
 				{"R-ERR-ISO", 250, ruleErrIso},
 				{"R-LOOKAHEAD", 20, ruleLookahead},
